@@ -85,6 +85,13 @@ type verifGhost struct {
 var verifPrioNames = [...]string{"p0", "p1", "p2"}
 
 var verifC39Events = 4
+var verifC39Reorder = false
+
+// a configuration update may reorder the priorities once, among 3 other events
+func verifH_C39_reorder() {
+	verifC39Events, verifC39Reorder = 4, true
+	verifH_C39_failover()
+}
 
 // thorough only: five events
 //
@@ -116,16 +123,13 @@ func verifH_C39_failover() {
 	}
 	seq := 0
 	nEvents := verifC39Events
+	ord := []int{0, 1, 2} // priority position -> child index (changes when a configuration update reorders priorities)
+	at := func(p int) *verifGhost { return g[ord[p]] }
+	reordered := false
 	var step func(i int)
 	step = func(i int) {
 		// ---- the balancer is quiescent: compare it with what the property prescribes ----
 		want := 2
-		for p := 0; p < 3; p++ {
-			if usable(g[p]) {
-				want = p
-				break
-			}
-		}
 		pb.mu.Lock()
 		inUse := pb.childInUse
 		for p, n := range verifPrioNames {
@@ -154,35 +158,35 @@ func verifH_C39_failover() {
 		// recompute after learning about starts (a newly started child is within its timeout)
 		want = 2
 		for p := 0; p < 3; p++ {
-			if usable(g[p]) {
+			if usable(at(p)) {
 				want = p
 				break
 			}
 		}
-		verifAssert(inUse == verifPrioNames[want], "the child in use is the highest priority that is READY or IDLE or still within its initial connection timeout, else the lowest priority")
-		verifAssert(g[want].started, "the child in use is started")
+		verifAssert(inUse == verifPrioNames[ord[want]], "the child in use is the highest priority that is READY or IDLE or still within its initial connection timeout, else the lowest priority")
+		verifAssert(at(want).started, "the child in use is started")
 		for p := 0; p < 3; p++ {
 			if p < want {
-				verifAssert(g[p].started, "lower priorities are only started after all higher ones were tried")
-				verifAssert(!usable(g[p]), "every priority above the one in use has failed or timed out")
+				verifAssert(at(p).started || reordered, "lower priorities are only started after all higher ones were tried")
+				verifAssert(!usable(at(p)) || !at(p).started, "every priority above the one in use has failed or timed out")
 			}
 			if p > want {
-				verifAssert(!g[p].started, "priorities below the one in use are stopped (closed once a higher priority is usable again)")
+				verifAssert(!at(p).started, "priorities below the one in use are stopped (closed once a higher priority is usable again)")
 			}
 		}
 		verifAssert(len(cc.states) > 0, "a picker has been reported to the parent")
 		last := cc.states[len(cc.states)-1]
-		if g[want].reported {
+		if at(want).reported {
 			vp, ok := last.Picker.(*verifPicker)
-			verifAssert(ok && vp.child == verifPrioNames[want] && vp.seq == g[want].pickerSeq && last.ConnectivityState == g[want].state, "the picker reported to the parent is the latest picker of the child in use")
+			verifAssert(ok && vp.child == verifPrioNames[ord[want]] && vp.seq == at(want).pickerSeq && last.ConnectivityState == at(want).state, "the picker reported to the parent is the latest picker of the child in use")
 		} else {
 			_, ok := last.Picker.(*verifPicker)
 			verifAssert(!ok && last.ConnectivityState == connectivity.Connecting, "before the child in use reports, the parent sees CONNECTING with a queuing picker")
 		}
-		if want == 2 && g[0].state == connectivity.TransientFailure && g[1].started {
+		if !reordered && want == 2 && g[0].state == connectivity.TransientFailure && g[1].started {
 			verifCover("failed-over-to-lowest")
 		}
-		if want == 0 && g[0].reported && g[0].state == connectivity.Ready && i >= 3 {
+		if !reordered && want == 0 && g[0].reported && g[0].state == connectivity.Ready && i >= 3 {
 			verifCover("back-to-highest")
 		}
 		if i == nEvents {
@@ -191,7 +195,13 @@ func verifH_C39_failover() {
 			return
 		}
 		// ---- next event ----
-		if verifBool("ten-seconds-pass") {
+		if verifC39Reorder && !reordered && verifBool("configuration-update-reorders-priorities") {
+			reordered = true
+			ord = [][]int{{1, 0, 2}, {0, 2, 1}, {2, 1, 0}}[verifChoice("new-order", 3)]
+			ncfg := &LBConfig{Children: cfg.Children, Priorities: []string{verifPrioNames[ord[0]], verifPrioNames[ord[1]], verifPrioNames[ord[2]]}}
+			verifAssert(pb.UpdateClientConnState(balancer.ClientConnState{BalancerConfig: ncfg}) == nil, "the reordered configuration is accepted")
+			verifCover("reordered")
+		} else if verifBool("ten-seconds-pass") {
 			verifAdvance(int64(DefaultPriorityInitTimeout))
 			for p := 0; p < 3; p++ {
 				g[p].withinTimeout = false
